@@ -155,6 +155,7 @@ class Canon:
             self.split_last_match(body)
             self.end_element_lets(body)
             self.if_let_get(body)
+            self.if_let_try_from(body)
             self.split_tuple_let_else(body)
             self.let_else(body)
             self.flatten_blocks(body)
@@ -1716,6 +1717,32 @@ class Canon:
                 self.stats["end_element_lets"] = self.stats.get("end_element_lets", 0) + 1
             if changed:
                 blk["stmts"] = out
+
+    def if_let_try_from(self, body):
+        """`if let Ok(c) = usize::try_from(X) { B }` (X a pure signed integer)  ->  `if X >= 0 { B[c := X as usize] }`."""
+        for n in [y for y in _walk(body) if y.get("k") == "If" and isinstance(y.get("cond"), dict) and y["cond"].get("k") == "LetCond"]:
+            lc = n["cond"]
+            pat, init = lc.get("pat", {}), _strip(lc.get("init") or {})
+            if not (pat.get("k") == "TupleStruct" and str(pat.get("path", "")).endswith("::Ok") and len(pat.get("ps", [])) == 1 and pat["ps"][0].get("k") == "Bind" and not pat["ps"][0].get("mut")):
+                continue
+            f_ = init.get("f", {}) if init.get("k") == "Call" else {}
+            if not (f_.get("k") == "Def" and str(f_.get("fn")) == "std::convert::TryFrom::try_from" and str(f_.get("impl", "")).startswith("<usize as std::convert::TryFrom<i") and
+                    len(init.get("args", [])) == 1 and self._pure(init["args"][0])):
+                continue
+            X = init["args"][0]
+            b = pat["ps"][0]
+            sp = n.get("sp") or [0, 0, 0, 0]
+            cast = {"k": "Cast", "e": copy.deepcopy(X), "id": self._id(), "ty": "usize", "sp": list(sp)}
+            for u in [y for y in _walk(n["then"]) if y.get("k") == "Local" and y.get("v") == b["v"]]:
+                keep = {kk: u.get(kk) for kk in ("sp",)}
+                u.clear()
+                u.update(copy.deepcopy(cast))
+                for kk, vv in keep.items():
+                    if vv is not None:
+                        u[kk] = vv
+            zero = {"k": "Lit", "v": "0", "id": self._id(), "ty": X.get("ty"), "sp": list(sp)}
+            n["cond"] = {"k": "Binary", "op": ">=", "l": copy.deepcopy(X), "r": zero, "id": self._id(), "ty": "bool", "sp": list(sp)}
+            self.stats["if_let_try_from"] = self.stats.get("if_let_try_from", 0) + 1
 
     def if_let_get(self, body):
         """`if let Some(p) = X.get(i) { B }` (X a pure Vec / slice place, i pure, no else or any else)  ->  `if i < X.len() { B[p := &X[i]] }`."""
